@@ -32,6 +32,8 @@ def run(db, chk) -> None:
     _attribution(db, chk, m)
     _parents(db, chk, m)
     _bound_by(db, chk, m)
+    from ..specs import kernel_type as KT
+    KT.check_kernel_type(db, chk, "C10.R2-comm-kernel-language")      # what bound_by calls a communication kernel: is_comm_kernel's regular language
     _breakdown(db, chk, m)
 
 
